@@ -73,4 +73,92 @@ theorem C09_accepted_becomes_known (r : Reg) (e : Entry) (r' : Reg) (h : onReque
       subst h
       simp [known]
 
+/-! ### requests are two steps with anything in between -/
+
+/-- the second half of a request handler registers a swap only for an id that is, AT THAT MOMENT, neither active nor
+    stored — whatever happened since its id test: a request that was in flight while a swap with the same id was
+    created and finished cannot take the id over (fix e55bb17) -/
+theorem C09_commit_only_unknown (r : Reg) (e : Entry) (r' : Reg) (h : commitRequest r e = (r', .accepted)) :
+    known r e.id = false := by
+  unfold commitRequest at h
+  cases hl : lockSwap r e with
+  | error err => cases err <;> simp [hl] at h
+  | ok r2 =>
+    simp only [hl] at h
+    split at h
+    · cases h
+    · rename_i hs
+      unfold lockSwap at hl
+      split at hl
+      · cases hl
+      · rename_i ha
+        simp only [known, Bool.or_eq_false_iff]
+        exact ⟨by simpa using ha, by simpa using hs⟩
+
+/-- nothing ever removes an id from the store: once a swap was stored its id stays known through every sequence of
+    local initiations, requests (in both halves), recoveries and removals -/
+theorem C09_stored_forever (ops : List Op) (r : Reg) (id : String) (h : id ∈ r.stored) :
+    id ∈ (ops.foldl apply r).stored := by
+  induction ops generalizing r with
+  | nil => exact h
+  | cons op rest ih =>
+    apply ih
+    cases op with
+    | lock e =>
+      simp only [apply]
+      cases hl : lockSwap r e with
+      | error _ => exact h
+      | ok r' =>
+        unfold lockSwap at hl
+        split at hl
+        · cases hl
+        · split at hl
+          · cases hl
+          · injection hl with hl; subst hl; exact h
+    | remove i => simpa [apply, removeActive] using h
+    | request e =>
+      simp only [apply, onRequest]
+      split
+      · exact h
+      · cases hl : lockSwap r e with
+        | error _ => exact h
+        | ok r' =>
+          unfold lockSwap at hl
+          split at hl
+          · cases hl
+          · split at hl
+            · cases hl
+            · injection hl with hl; subst hl; simp [h]
+    | commit e =>
+      simp only [apply, commitRequest]
+      cases hl : lockSwap r e with
+      | error err => cases err <;> exact h
+      | ok r' =>
+        simp only []
+        split
+        · exact h
+        · unfold lockSwap at hl
+          split at hl
+          · cases hl
+          · split at hl
+            · cases hl
+            · injection hl with hl; subst hl; simp [h]
+
+/-- so: after a swap with id X was stored, no request with id X is ever registered again, in whichever order the two
+    halves of the handlers and everything else interleave -/
+theorem C09_no_takeover (ops : List Op) (r : Reg) (e : Entry) (h : e.id ∈ r.stored) :
+    (commitRequest (ops.foldl apply r) e).2 ≠ .accepted := by
+  intro hacc
+  have hk := C09_commit_only_unknown (ops.foldl apply r) e (commitRequest (ops.foldl apply r) e).1 (by rw [← hacc])
+  have hs := C09_stored_forever ops r e.id h
+  simp only [known, Bool.or_eq_false_iff] at hk
+  have : (ops.foldl apply r).stored.contains e.id = true := by simpa using hs
+  rw [this] at hk
+  exact absurd hk.2 (by simp)
+
+/-- the handler before the fix did not have this: a finished swap's id (stored, no longer active) was given away
+    (witness: the schedule the monitor replays on the real code) -/
+theorem C09_old_commit_takes_over :
+    (commitRequestOld ⟨[], ["X"]⟩ ⟨"X", "777x1x0", "peer"⟩).2 = .accepted := by decide
+
 end PsVerif.Props.C09
